@@ -121,7 +121,7 @@ def cusum(ctx):
         a = v.single_atom() if v is not None else None
         ctx.ob("AGREE", "CUSUM.reset", "%s restarts at [0]" % attr, a is not None and a[0] == "list" and a[1] == (const(0),), "")
     # sd == 0 is an error only after burn-in
-    rz = [e for e in tr.raises() if e.func.qualname == "CUSUM.update" and any(T.mentions(g, lambda a: a == ("attr", "sd_hat")) for g in guards(e))]
+    rz = [e for e in tr.raises() if e.func.qualname.startswith("CUSUM.") and q.stack_has(e, "CUSUM.update") and any(T.mentions(g, lambda a: a == ("attr", "sd_hat")) for g in guards(e))]
     ctx.ob("GRD", "CUSUM.update", "zero standard deviation raises only after burn-in", bool(rz) and all(q.has_guard(e, S("s > A_burn_in", {"s": ssr})) for e in rz), "")
     ctx.ob("GRD", "CUSUM.update", "the degenerate-stream error is raised exactly when the standard deviation is 0",
            bool(rz) and all(q.has_guard(e, T.mk_cmp("==", A("sd_hat"), const(0))) for e in rz),
